@@ -328,6 +328,29 @@ for wi, p in enumerate(WIRE):
             ok, errs, text = Policy(policy_data=data).evaluate(banner, wire(q['kex'], q['key'], q['enc'], q['mac']))
             if ok or fld not in fields(errs):
                 fail(dict(inp, perturbation=name + ' ' + cat, lists=q[cat]), {'passed': ok, 'errors': fields(errs)}, {'passed': False, 'error names': fld}, 'wire-drift-repeated-name')
+# end to end over the fake network: a policy made with -M from a probed server passes on that server (-P) and fails on one whose host key or
+# CA key differs in size by a few bits, or whose group-exchange modulus differs
+import tempfile, os
+def psrv(rsa_bits, cert_bits, ca_bits, modulus):
+    return F.Server(['curve25519-sha256', 'diffie-hellman-group-exchange-sha256'], ['rsa-sha2-512', 'ssh-rsa-cert-v01@openssh.com', 'ssh-ed25519'], ['aes256-gcm@openssh.com'], ['hmac-sha2-512-etm@openssh.com'],
+                    hostkeys={'rsa-sha2-512': F.rsa_blob(rsa_bits), 'ssh-rsa-cert-v01@openssh.com': F.cert_blob('rsa', cert_bits, F.rsa_blob(ca_bits)), 'ssh-ed25519': F.ed25519_blob()},
+                    moduli=[modulus], select='roundup')
+pf = tempfile.NamedTemporaryFile('w', suffix='.policy', delete=False); pf.close(); os.unlink(pf.name)
+try:
+    st, out = F.run_main(['-n', '--skip-rate-test', '-M', pf.name, 'a.test'], F.FakeNet({'a.test': psrv(4096, 4096, 4096, 3072)}))
+    cases += 1
+    if not os.path.exists(pf.name):
+        fail({'step': '-M'}, {'status': st, 'tail': out[-200:]}, 'a policy file', 'make-policy')
+    else:
+        for name, args, want in (('same server', (4096, 4096, 4096, 3072), 0), ('host key 4088 bits', (4088, 4096, 4096, 3072), 3), ('certificate key 4088 bits', (4096, 4088, 4096, 3072), 3),
+                                 ('CA key 4080 bits', (4096, 4096, 4080, 3072), 3), ('modulus 4096', (4096, 4096, 4096, 4096), 3), ('host key 4104 bits', (4104, 4096, 4096, 3072), 3)):
+            cases += 1
+            st, out = F.run_main(['-n', '--skip-rate-test', '-P', pf.name, 'b.test'], F.FakeNet({'b.test': psrv(*args)}))
+            if st != want:
+                fail({'probed peer': name, 'sizes (rsa, cert, CA, modulus)': list(args)}, {'status': st, 'tail': out.strip().split('\n')[-4:]}, {'status': want}, 'probed-roundtrip')
+finally:
+    if os.path.exists(pf.name):
+        os.unlink(pf.name)
 # every built-in policy is passed by a peer configured exactly as it lists
 for name, b in BUILTIN_POLICIES.items():
     cases += 1
